@@ -347,7 +347,15 @@ class Calls:
         for g, e in c.ghost.items():
             # ghost state of the callee is not visible to callers: an unknown value of the right sort
             v0 = S.spec_eval_term(e, env_pre, extra)
-            ex2[g] = z3.Const(ex.fresh_name('ghost_' + g), v0.sort()) if z3.is_expr(v0) else v0
+            if z3.is_expr(v0):
+                ex2[g] = z3.Const(ex.fresh_name('ghost_' + g), v0.sort())
+            elif isinstance(v0, S.W):
+                # structured ghost (an array the callee builds on the way): an unknown value of the same shape
+                fv = fresh_like(ex, v0.tree, ex.fresh_name('ghost_' + g))
+                self.type_inv_tree(ex, fv)
+                ex2[g] = env_post.wrap(fv)
+            else:
+                ex2[g] = v0
         ex2['old'] = OldNS(env_pre)
         if result is not None and not isinstance(result, RefVal):
             ex2['result'] = env_post.wrap(result)
